@@ -22,7 +22,9 @@ from ..core import Case, q2s, toF
 
 RULE = ("seeded structured elections (approval, cardinal, cumulative, ordinal) x Profile/MultiProfile x outcomes "
         "(all feasible allocations on small instances, a sample otherwise) x satisfaction measures x histogram bin counts "
-        "2..25 with normalisers chosen so that satisfactions land exactly on bin boundaries; plus direct vectors for "
+        "2..25 with normalisers chosen so that satisfactions land exactly on bin boundaries; plus elections whose costs/scores have "
+        "a large common offset and a small spread (10^3..10^13 +- a few units), very unequal magnitudes or one repeated large "
+        "value; plus direct vectors for "
         "mean_generator / gini_coefficient and instances with categories; non-trivial = at least two voters with "
         "different values of the statistic's underlying quantity; distinct by (canonical case hash, profile kind, call)")
 ASSUMPTIONS = [
@@ -34,7 +36,8 @@ ASSUMPTIONS = [
     "median/std of project costs need a non-empty instance; avg_project_cost of an empty instance must raise ZeroDivisionError",
     "voter_flow_matrix diagonal is taken as documented by the repository test: voters whose ballot is exactly that project",
 ]
-TRUSTED = ["numpy median/std/exp and math.ceil on gmpy2.mpq (compared within 1e-9 relative against the exact rational core)"]
+TRUSTED = ["numpy median/std/exp and math.ceil on gmpy2.mpq (compared within 1e-9 relative against the exact rational core; the standard "
+           "deviation additionally gets the absolute rounding slack of a correct two-pass computation, see std_slack)"]
 
 TOL = 1e-9
 
@@ -95,6 +98,32 @@ def t_hist(vals, mx, bins):
 def t_variance(vals):
     m = t_mean(vals)
     return sum(((v - m) ** 2 for v in vals), F(0)) / len(vals)
+
+
+U53 = 2.0 ** -53
+
+
+def std_slack(vals):
+    """absolute slack granted to a binary64 standard deviation of the exact values `vals` ON TOP of the 1e-9 relative error
+    of the statement: what a correctly rounded two-pass computation (mean first, then the mean of the squared deviations,
+    as numpy.std does) can lose, and nothing more.
+      (i)  a value that is not itself a binary64 number is rounded (or truncated, as GMP does) on entry: |X_i - x_i| <=
+           2u|x_i|; the standard deviation is 1-Lipschitz for the root-mean-square norm, so this moves it by at most the
+           root mean square of these entry errors (0 when every value is representable, e.g. integers below 2^53);
+      (ii) the computed mean is off by |d| <= n*u*max|x_i|; deviations taken from a shifted centre give sqrt(s^2 + d^2)
+           instead of s, i.e. at most min(d, d^2 / 2s) more (second order in d: this is what makes two-pass stable);
+      (iii) the roundings of the deviations, squares, their sum, the division and the square root are RELATIVE errors of
+           a few u and are covered by the relative tolerance.
+    The bound is doubled.  A single-pass E[X^2]-E[X]^2 computation loses about u*mean^2/s instead and does not fit."""
+    vals = [F(v) for v in vals]
+    n = len(vals)
+    if n == 0:
+        return 0.0
+    entry = math.sqrt(sum(((2 * U53 * float(abs(v))) ** 2 for v in vals if F(float(v)) != v), 0.0) / n)
+    d = n * U53 * float(max(abs(v) for v in vals))
+    s = math.sqrt(t_variance(vals)) - entry
+    centre = d if s <= 0 else min(d, d * d / (2 * s))
+    return 2 * (entry + centre)
 
 
 def ballot_projects(case, b):
@@ -185,12 +214,13 @@ def norm(v):
     return ("x", toF(v))
 
 
-def same(a, b, scale=0.0):
-    """a: normalised impl value, b: normalised reference (exact or float)"""
+def same(a, b, scale=0.0, atol=0.0):
+    """a: normalised impl value, b: normalised reference (exact or float); float values agree when they are within TOL
+    relative error of the reference (relative to max(|reference|, scale)) plus the absolute slack `atol`"""
     if isinstance(a, dict) or isinstance(b, dict):
-        return isinstance(a, dict) and isinstance(b, dict) and set(a) == set(b) and all(same(a[k], b[k], scale) for k in a)
+        return isinstance(a, dict) and isinstance(b, dict) and set(a) == set(b) and all(same(a[k], b[k], scale, atol) for k in a)
     if isinstance(a, list) or isinstance(b, list):
-        return isinstance(a, list) and isinstance(b, list) and len(a) == len(b) and all(same(x, y, scale) for x, y in zip(a, b))
+        return isinstance(a, list) and isinstance(b, list) and len(a) == len(b) and all(same(x, y, scale, atol) for x, y in zip(a, b))
     if a[0] == "err" or b[0] == "err":
         return a[0] == b[0] and a[1] == b[1]
     if a[0] == "x" and b[0] == "x":
@@ -198,7 +228,7 @@ def same(a, b, scale=0.0):
     fa, fb = float(a[1]), float(b[1])
     if math.isnan(fa) or math.isnan(fb):
         return False
-    return abs(fa - fb) <= TOL * max(abs(fb), scale)
+    return abs(fa - fb) <= TOL * max(abs(fb), scale) + atol
 
 
 def show(v):
@@ -231,13 +261,13 @@ def X(v):
 
 
 class Obs:
-    __slots__ = ("call", "impl", "exp", "scale", "line", "mfun", "cfg", "case", "nontrivial")
+    __slots__ = ("call", "impl", "exp", "scale", "atol", "line", "mfun", "cfg", "case", "nontrivial")
 
-    def __init__(self, case, cfg, call_name, impl, exp, line=None, mfun=None, scale=0.0, nontrivial=False):
+    def __init__(self, case, cfg, call_name, impl, exp, line=None, mfun=None, scale=0.0, nontrivial=False, atol=0.0):
         self.case, self.cfg, self.call = case, dict(cfg, call=call_name), call_name
         self.impl = norm(impl)
         self.exp = None if exp is None else norm(exp)
-        self.line, self.mfun, self.scale, self.nontrivial = line, mfun, scale, nontrivial
+        self.line, self.mfun, self.scale, self.nontrivial, self.atol = line, mfun, scale, nontrivial, atol
 
 
 class Batch:
@@ -264,7 +294,7 @@ class Batch:
                    repr(ob.cfg.get("alloc")), ob.cfg.get("sat"), ob.cfg.get("bins"), ob.cfg.get("mx"))
             if ob.nontrivial:
                 ctx.nontrivial.add(key)
-            if ob.exp is not None and not same(ob.impl, ob.exp, ob.scale):
+            if ob.exp is not None and not same(ob.impl, ob.exp, ob.scale, ob.atol):
                 ctx.violations.append({
                     "what": f"{ob.call}: library value differs from the textbook definition",
                     "case": ob.case.to_json() if ob.case is not None else None,
@@ -277,7 +307,7 @@ class Batch:
                     mod = norm(ob.mfun(raw))
                 except Exception as e:  # noqa: BLE001
                     mod = ("err", "unparsable:" + raw[:60] + ":" + repr(e)[:40])
-                if not same(ob.impl, mod, ob.scale):
+                if not same(ob.impl, mod, ob.scale, ob.atol):
                     ctx.disagreements.append({"line": self.lines[ob.line], "call": ob.call, "impl": show(ob.impl), "model": show(mod),
                                               "case": ob.case.to_json() if ob.case is not None else None, "cfg": ob.cfg})
                 seen = ctx.__dict__.setdefault("_c18_sampled", set())
@@ -380,7 +410,7 @@ def check_instance(batch, case, cfg):
         var = t_variance(costs)
         sq = lambda v: ("f", math.sqrt(float(v[1])))  # noqa: E731
         batch.add(Obs(case, cfg, "std_dev_project_cost", call(an.std_dev_project_cost, b.inst), ("f", math.sqrt(var)), line,
-                      field(4, sq), scale=float(max(costs)), nontrivial=nt))
+                      field(4, sq), atol=std_slack(costs), nontrivial=nt))
 
 
 def check_profile(batch, case, cfg):
@@ -725,6 +755,65 @@ def utils_stream(ctx, n, compare=True):
     batch.finish()
 
 
+MAGNITUDE_KINDS = ("offset_small_int_spread", "offset_small_int_spread", "offset_fractional_spread", "unequal_magnitudes",
+                   "all_equal_large", "two_clusters", "one_outlier")
+
+
+def gen_magnitude_costs(rng, m, kind):
+    """cost vectors whose SIZE is unrelated to their SPREAD (money amounts are like that: 120000 +- 2): a large common
+    offset with a spread of a few units, values of very unequal magnitude, one repeated large value"""
+    off = F(rng.choice([1, 2, 3, 5, 7, 9, 12]) * 10 ** rng.randint(3, 13))
+    if kind == "offset_small_int_spread":
+        w = rng.choice([1, 2, 3, 10])
+        return [off + rng.randint(-w, w) for _ in range(m)]
+    if kind == "offset_fractional_spread":
+        den = rng.choice([2, 3, 4, 7, 10, 100])
+        return [off + F(rng.randint(0, 3 * den), den) for _ in range(m)]
+    if kind == "unequal_magnitudes":
+        return [F(rng.randint(1, 9) * 10 ** rng.randint(0, 13)) + rng.choice([0, 0, 1, F(1, 2), F(1, 3)]) for _ in range(m)]
+    if kind == "all_equal_large":
+        c = off + rng.choice([0, 1, F(1, 3), F(1, 10)])
+        return [c] * m
+    if kind == "two_clusters":
+        lo = F(rng.randint(1, 20))
+        return [rng.choice([lo, off]) + rng.randint(0, 2) for _ in range(m)]
+    costs = [off + rng.randint(0, 2) for _ in range(m)]  # one_outlier
+    costs[rng.randrange(m)] = F(rng.choice([0, 1, 5]))
+    return costs
+
+
+def magnitude_stream(ctx, n, compare=True):
+    """the statistics on elections whose costs (and scores) are large compared with their spread or differ by many orders
+    of magnitude: float-valued statistics must still be within 1e-9 RELATIVE error of the exact value (see std_slack)"""
+    rng = ctx.rng
+    batch = Batch(ctx, compare)
+    for _ in range(n):
+        base = core.gen_election(rng, m_lo=1, m_hi=7, n_hi=6)
+        kind = rng.choice(MAGNITUDE_KINDS)
+        costs = gen_magnitude_costs(rng, len(base.projects), kind)
+        ballots = base.ballots
+        if base.btype == "card" and rng.random() < 0.5:
+            so = F(10 ** rng.randint(3, 9))
+            ballots = [{k: (so + v if v > 0 else v) for k, v in b.items()} for b in ballots]
+        total = sum(costs, F(0))
+        budget = rng.choice([total, total / 2, max(costs), max(costs) + min(costs), F(1)])
+        case = Case([(nm, c) for (nm, _), c in zip(base.projects, costs)], budget if budget > 0 else F(1), base.btype, ballots, base.seed)
+        ctx.count("magnitude_kind", kind)
+        sd = math.sqrt(t_variance(costs))
+        if sd > 0:
+            ctx.count("magnitude_mean_over_std", "1e%d" % int(math.log10(max(1.0, float(total / len(costs)) / sd))))
+        check_instance(batch, case, {"kind": "inst"})
+        allocs = [[]] + [[nm] for nm in case.names if case.cost[nm] <= case.budget]
+        for multi in (False, True):
+            check_profile(batch, case, {"kind": "prof", "multi": multi})
+            mname = rng.choice(EXACT_MEASURES[case.btype])
+            cfg = {"kind": "sat", "multi": multi, "alloc": list(rng.choice(allocs)), "sat": mname}
+            check_sat(batch, case, cfg, [rng.randint(2, 25)], rng)
+        if len(batch.lines) > 4000:
+            batch.finish()
+    batch.finish()
+
+
 def history_stream(ctx, n):
     """statistics recomputed on a profile object that was EDITED in place between two calls (same number of voters): the second
     answer must be the one a freshly built profile with the edited ballots gives (nothing remembered from the first call)"""
@@ -804,6 +893,7 @@ def run(ctx):
     ctx.rule = RULE
     history_stream(ctx, ctx.scale(400, 3000))
     election_stream(ctx, ctx.scale(400, 4000))
+    magnitude_stream(ctx, ctx.scale(300, 3000))
     category_stream(ctx, ctx.scale(250, 2500))
     utils_stream(ctx, ctx.scale(400, 4000))
 
@@ -811,6 +901,7 @@ def run(ctx):
 def search(ctx, disagreements):
     ctx.rule = RULE
     election_stream(ctx, 1200, compare=False)
+    magnitude_stream(ctx, 600, compare=False)
     category_stream(ctx, 600, compare=False)
     utils_stream(ctx, 1500, compare=False)
 
